@@ -207,7 +207,7 @@ def install(I):
         if isinstance(v, SymObj):
             return any(issubclass(v.cls, k) for k in classes)
         static = {SymInt: int, SymBool: bool, SymStr: str, PyTuple: tuple, PyList: list, PyDict: dict,
-                  SymReal: __import__("fractions").Fraction}
+                  SymReal: float}
         for sk, pk in static.items():
             if isinstance(v, sk):
                 return any(issubclass(pk, k) for k in classes)
